@@ -244,7 +244,7 @@ func (r *adapterRunner) Exec(line string) string {
 }
 
 func (adapterComp) Gen(rng *rand.Rand, tier string) [][]string {
-	nh, steps := 150, 50
+	nh, steps := 600, 50
 	if tier == "thorough" {
 		nh, steps = 3000, 90
 	}
@@ -532,7 +532,7 @@ func (r *unitRunner) Exec(line string) string {
 }
 
 func (unitComp) Gen(rng *rand.Rand, tier string) [][]string {
-	nh, steps := 150, 50
+	nh, steps := 600, 50
 	if tier == "thorough" {
 		nh, steps = 3000, 90
 	}
@@ -845,7 +845,7 @@ func (r *fifoRunner) Exec(line string) string {
 }
 
 func (fifoComp) Gen(rng *rand.Rand, tier string) [][]string {
-	nh, steps := 150, 60
+	nh, steps := 600, 60
 	if tier == "thorough" {
 		nh, steps = 3000, 100
 	}
